@@ -32,7 +32,7 @@ def describe(tier):
 
 
 def shards(tier, seed):
-    ts = universe.universe(tier)
+    ts = universe.universe(tier, "all+3" if tier == "thorough" else "all")
     ts = ts[seed % len(ts):] + ts[: seed % len(ts)]
     return cons.chunk(ts, 64 if tier == "quick" else 192)
 
